@@ -205,7 +205,10 @@ class _MCQuad(torch.autograd.Function):
                 dLdthetaf = torch.autograd.grad(fout, ftensor_params,
                                                 grad_outputs=grad_epf,
                                                 retain_graph=True,
+                                                allow_unused=True,
                                                 create_graph=local_grad_enabled)
+                # a tensor that does not reach the integrand has a zero gradient
+                dLdthetaf = tuple(torch.zeros_like(p) if g is None else g for g, p in zip(dLdthetaf, ftensor_params))
             # derivative of pparams
             dLdthetap = []
             if len(ptensor_params) > 0:
@@ -213,7 +216,9 @@ class _MCQuad(torch.autograd.Function):
                 dLdthetap = torch.autograd.grad(pout, ptensor_params,
                                                 grad_outputs=dLdef.reshape(pout.shape),
                                                 retain_graph=True,
+                                                allow_unused=True,
                                                 create_graph=local_grad_enabled)
+                dLdthetap = tuple(torch.zeros_like(p) if g is None else g for g, p in zip(dLdthetap, ptensor_params))
             # combine the states needed for backward
             outs = (
                 *dLdthetaf,
